@@ -21,7 +21,8 @@ RULE = ('valence-valid molecules (corpus, curated, literals, constructive, symme
         'explicify/implicify inverse, op(R(x)) == R(op(x)) with tautomer fixing off (on for corpus molecules), tautomer set '
         'numbering independent / containing the input / pairwise distinct / constant formula. plus every documented '
         '(spelling, canonical spelling) pair of the repository\'s rule tests, also under renumbering, with the rule indices that '
-        'every operation also on an object whose derived values were read before; geminal double instances of documented spellings; canonicalize(keep_kekule=True). fired recorded. non-trivial = the operation changed the molecule; distinct by (operation, canonical string)')
+        'every operation also on an object whose derived values were read before; geminal double instances of documented spellings; canonicalize(keep_kekule=True). fired recorded. non-trivial = the operation changed the molecule; distinct by (operation, canonical string)'
+        '; also: drawn operation order (enumeration before neutralize in one interpreter); curated neutral acid / anion salts.')
 ASSUMPTIONS = ['documented spellings = the (input, output) literals of chython/algorithms/standardize/test/test_groups.py and the tautomer '
                'tests, read with ast (never imported)',
                'numbering independence is compared by canonical strings; molecules in C01 gaps / known findings are skipped for that clause',
